@@ -282,7 +282,7 @@ theorem Ok_iter1 (P : Problem) (sk : Nat) (st : LoopSt) (e : EnvSt) (hr : st.ps.
   intro u e1 h1
   apply Ok_bind orc _ _ _ (fun r e' => Fr e e' ∧ keeps st.ps r.2) _
     (Ok_mono orc _ _ _ _ (Ok_sampleTarget orc P sk st.ps u e1 (by rw [h1.size]; exact hk))
-      (fun _ _ h2 => ⟨h1.trans h2.1, h2.2⟩))
+      (fun _ _ h2 => ⟨h1.trans h2.1, ⟨h2.2.1, h2.2.2⟩⟩))
   intro tgt e2 h2
   apply Ok_bind orc _ _ _ (fun _ e' => Fr e e' ∧ e.evals < e'.evals) _
     (Ok_mono orc _ _ _ _ (Ok_checkMotion orc P _ _ e2)
@@ -299,7 +299,7 @@ theorem Ok_askPoll (e : EnvSt) :
       e'.evals = e.evals ∧ (mu e = 0 → b = true) ∧
       (b = false → mu e' < mu e ∨ (mu e' = mu e ∧ 0 < mu e' ∧ isEvalsK e'.ptc = true)))
   · simp only [Ok, exec_ask, envStep]
-    refine ⟨_, rfl, rfl, rfl, rfl, ?_, ?_⟩
+    refine ⟨_, rfl, trivial, trivial, trivial, ?_, ?_⟩
     · intro h0
       unfold mu at h0
       cases hp : e.ptc with
@@ -313,7 +313,7 @@ theorem Ok_askPoll (e : EnvSt) :
         simp only [Ptc.eval, Bool.or_eq_false_iff, decide_eq_false_iff_not] at hb
         right
         simp only [Ptc.eval, isEvalsK]
-        omega
+        refine ⟨trivial, ?_, trivial⟩; omega
       | iter m t =>
         rw [hp] at hb
         simp only [Ptc.eval, decide_eq_false_iff_not] at hb
@@ -359,5 +359,166 @@ theorem Ok_rrtLoop (P : Problem) (sk : Nat) (fuel : Nat) (st : LoopSt) (e : EnvS
         intro r e3 h3
         exact ⟨h3.1.trans (hfr.size.trans hs1), h3.2.1.trans (hfr.kind.trans hk1),
           h3.2.2.1.trans hk1', h3.2.2.2.trans hk2'⟩
+
+/-! ### set-up, `solve`, histories -/
+
+theorem Ok_addStarts (P : Problem) (l : List Vec) (ps : PSt) (e : EnvSt) :
+    Ok orc (addStarts P l ps) e (fun ps' e' => Fr e e' ∧ keeps ps ps') := by
+  induction l generalizing ps e with
+  | nil => exact Ok_pure orc _ _ _ ⟨Fr.rfl' e, rfl, rfl⟩
+  | cons x l ih =>
+    unfold addStarts
+    simp only []
+    split
+    · apply Ok_bind orc _ _ _ (fun _ e' => Fr e e') _ (Ok_mono orc _ _ _ _ (Ok_askValid orc _ e) (fun _ _ h => h.1))
+      intro ok e1 h1
+      split
+      · exact Ok_mono orc _ _ _ _ (ih _ e1) (fun _ _ h2 => ⟨h1.trans h2.1, h2.2.1, h2.2.2⟩)
+      · exact Ok_mono orc _ _ _ _ (ih _ e1) (fun _ _ h2 => ⟨h1.trans h2.1, h2.2.1, h2.2.2⟩)
+    · exact Ok_mono orc _ _ _ _ (ih _ e) (fun _ _ h2 => ⟨h2.1, h2.2.1, h2.2.2⟩)
+
+/-- what creating generators leaves alone -/
+structure Al (n : Nat) (e e' : EnvSt) : Prop where
+  size : e'.rngs.size = e.rngs.size + n
+  ptc : e'.ptc = e.ptc
+  kind : e'.iterKind = e.iterKind
+  evals : e'.evals = e.evals
+
+theorem mu_Al {n : Nat} {e e' : EnvSt} (h : Al n e e') : mu e' = mu e := by
+  unfold mu; rw [h.ptc, h.evals]
+
+theorem Ok_askAlloc (e : EnvSt) : Ok orc askAlloc e (fun h e' => h.1 = e.rngs.size ∧ Al 1 e e') := by
+  unfold askAlloc
+  apply Ok_bind orc _ _ _ (fun a e' => (∃ s, a = .handle e.rngs.size s ∧ Al 1 e e') ∨ (a = .fail ∧ e'.allocFailed = true))
+  · simp only [Ok, exec_ask, envStep]
+    split
+    · right; exact ⟨rfl, rfl⟩
+    · left; exact ⟨_, rfl, ⟨by simp, rfl, rfl, rfl⟩⟩
+  · intro a e' h
+    rcases h with ⟨s, ha, hal⟩ | ⟨ha, hf⟩
+    · rw [ha]; exact Ok_pure orc _ _ _ ⟨rfl, hal⟩
+    · rw [ha]; simp only [Ok, exec_failure]; exact hf
+
+theorem Ok_allocN (n : Nat) (e : EnvSt) : Ok orc (allocN n) e (fun _ e' => Al n e e') := by
+  induction n generalizing e with
+  | zero => exact Ok_pure orc _ _ _ ⟨rfl, rfl, rfl, rfl⟩
+  | succ n ih =>
+    unfold allocN
+    apply Ok_bind orc _ _ _ _ _ (Ok_askAlloc orc e)
+    intro h e1 h1
+    refine Ok_mono orc _ _ _ _ (ih e1) (fun _ e2 h2 => ?_)
+    exact ⟨by rw [h2.size, h1.2.size]; omega, h2.ptc.trans h1.2.ptc, h2.kind.trans h1.2.kind, h2.evals.trans h1.2.evals⟩
+
+theorem Ok_allocSampler (P : Problem) (e : EnvSt) :
+    Ok orc (allocSampler P) e (fun h e' => h.1 = e.rngs.size ∧ Al (samplerWidth P) e e') := by
+  unfold allocSampler
+  apply Ok_bind orc _ _ _ _ _ (Ok_askAlloc orc e)
+  intro h e1 h1
+  apply Ok_bind orc _ _ _ _ _ (Ok_allocN orc (samplerWidth P - 1) e1)
+  intro _ e2 h2
+  have hw := samplerWidth_pos P
+  exact Ok_pure orc _ _ _ ⟨h1.1, by rw [h2.size, h1.2.size]; omega, h2.ptc.trans h1.2.ptc, h2.kind.trans h1.2.kind,
+    h2.evals.trans h1.2.evals⟩
+
+/-- the handles a planner state holds are generators that exist -/
+def WFps (P : Problem) (ps : PSt) (e : EnvSt) : Prop :=
+  ps.rng < e.rngs.size ∧ ∀ h, ps.sampler = some h → h.1 + samplerWidth P ≤ e.rngs.size
+
+theorem WFps_mono (P : Problem) (ps ps' : PSt) (e e' : EnvSt) (h : WFps P ps e) (hk : keeps ps ps')
+    (hs : e.rngs.size ≤ e'.rngs.size) : WFps P ps' e' := by
+  obtain ⟨h1, h2⟩ := h
+  refine ⟨by rw [hk.1]; omega, fun h hh => ?_⟩
+  rw [hk.2] at hh
+  have := h2 h hh
+  omega
+
+theorem Ok_ensureSampler (P : Problem) (ps : PSt) (e : EnvSt) (hw : WFps P ps e) :
+    Ok orc (ensureSampler P ps) e
+      (fun r e' => ∃ n, Al n e e' ∧ r.1.rng = ps.rng ∧ r.2 + samplerWidth P ≤ e'.rngs.size ∧ WFps P r.1 e') := by
+  unfold ensureSampler
+  split
+  · rename_i h hs
+    exact Ok_pure orc _ _ _ ⟨0, ⟨rfl, rfl, rfl, rfl⟩, rfl, hw.2 h hs, hw⟩
+  · apply Ok_bind orc _ _ _ _ _ (Ok_allocSampler orc P e)
+    intro h e1 h1
+    refine Ok_pure orc _ _ _ ⟨_, h1.2, rfl, by rw [h1.2.size, h1.1]; exact Nat.le_refl _, ?_, ?_⟩
+    · show ps.rng < e1.rngs.size
+      rw [h1.2.size]; have := hw.1; omega
+    · intro h' hh
+      simp only [Option.some.injEq] at hh
+      subst hh
+      rw [h1.2.size, h1.1]
+      exact Nat.le_refl _
+
+theorem Ok_solve (P : Problem) (fuel : Nat) (ps : PSt) (e : EnvSt) (hw : WFps P ps e) (hf : mu e < fuel) :
+    Ok orc (solve P fuel ps) e (fun r e' => WFps P r.1 e') := by
+  unfold solve
+  apply Ok_bind orc _ _ _ _ _ (Ok_addStarts orc P _ ps e)
+  intro ps1 e1 h1
+  have hw1 : WFps P ps1 e1 := WFps_mono P ps ps1 e e1 hw h1.2 (by rw [h1.1.size]; exact Nat.le_refl _)
+  split
+  · exact Ok_pure orc _ _ _ hw1
+  · apply Ok_bind orc _ _ _ _ _ (Ok_ensureSampler orc P ps1 e1 hw1)
+    intro r e2 h2
+    obtain ⟨n, hal, hrng, hsk, hw2⟩ := h2
+    refine Ok_mono orc _ _ _ _ (Ok_rrtLoop orc P r.2 fuel { ps := r.1 } e2 hw2.1 hsk ?_) ?_
+    · rw [mu_Al hal]; exact Nat.lt_of_le_of_lt (mu_Fr h1.1) hf
+    · intro res e3 h3
+      exact WFps_mono P r.1 res.1 e2 e3 hw2 h3.2.2 (by rw [h3.1]; exact Nat.le_refl _)
+
+theorem Ok_askArm (b : Nat) (e : EnvSt) :
+    Ok orc (askArm b) e (fun _ e' => e'.rngs.size = e.rngs.size ∧ mu e' = b) := by
+  unfold askArm
+  apply Ok_bind orc _ _ _ (fun a e' => a = .ok ∧ e'.rngs.size = e.rngs.size ∧ mu e' = b)
+  · simp only [Ok, exec_ask, envStep]
+    refine ⟨trivial, trivial, ?_⟩
+    unfold mu
+    cases hk : e.iterKind with
+    | true => simp
+    | false => simp
+  · intro a e' h
+    rw [h.1]
+    exact Ok_pure orc _ _ _ h.2
+
+theorem Ok_askMark (e : EnvSt) : Ok orc askMark e (fun _ e' => e'.rngs.size = e.rngs.size) := by
+  unfold askMark
+  apply Ok_bind orc _ _ _ (fun a e' => a = .ok ∧ e'.rngs.size = e.rngs.size)
+  · simp only [Ok, exec_ask, envStep]; exact ⟨trivial, trivial⟩
+  · intro a e' h
+    rw [h.1]
+    exact Ok_pure orc _ _ _ h.2
+
+theorem WFps_clear (P : Problem) (ps : PSt) (e : EnvSt) (h : WFps P ps e) : WFps P (clear ps) e :=
+  ⟨h.1, fun _ hh => by simp [clear] at hh⟩
+
+theorem Ok_phases (P : Problem) (budget : Nat) (hist : List Phase) (ps : PSt) (acc : List Section) (e : EnvSt)
+    (hw : WFps P ps e) : Ok orc (phases P budget hist ps acc) e (fun _ _ => True) := by
+  induction hist generalizing ps acc e with
+  | nil => exact Ok_pure orc _ _ _ trivial
+  | cons ph hist ih =>
+    cases ph with
+    | clear => unfold phases; exact ih _ _ e (WFps_clear P ps e hw)
+    | solve =>
+      unfold phases
+      apply Ok_bind orc _ _ _ _ _ (Ok_askArm orc budget e)
+      intro _ e1 h1
+      apply Ok_bind orc _ _ _ _ _ (Ok_solve orc P (budget + 2) ps e1
+        (WFps_mono P ps ps e e1 hw ⟨rfl, rfl⟩ (by rw [h1.1]; exact Nat.le_refl _)) (by rw [h1.2]; omega))
+      intro r e2 h2
+      apply Ok_bind orc _ _ _ _ _ (Ok_askMark orc e2)
+      intro _ e3 h3
+      exact ih _ _ e3 (WFps_mono P r.1 r.1 e2 e3 h2 ⟨rfl, rfl⟩ (by rw [h3]; exact Nat.le_refl _))
+
+/-- From *every* environment state: the program (space set-up, planner construction, any `solve`/`clear` history) ends
+without a result only if a seed draw failed. -/
+theorem Ok_programM (P : Problem) (budget : Nat) (hist : List Phase) (e : EnvSt) :
+    Ok orc (programM P budget hist) e (fun _ _ => True) := by
+  unfold programM
+  apply Ok_bind orc _ _ _ _ _ (Ok_allocN orc _ e)
+  intro _ e1 _
+  apply Ok_bind orc _ _ _ _ _ (Ok_askAlloc orc e1)
+  intro h e2 h2
+  apply Ok_phases
+  exact ⟨by show h.1 < e2.rngs.size; rw [h2.1, h2.2.size]; omega, fun _ hh => by simp at hh⟩
 
 end OmplModel.RngPlan
